@@ -336,14 +336,20 @@ Definition write_mdat (file : list N) (zeof : bool) (m : C08Model.mdat) (rs : li
 (* ---------- cropToTime without the box encoding: tables, byte ranges, firstOffset ---------- *)
 Record trak_in := mkTI { ti_id : N; ti_ts : N; ti_tb : tables }.
 
-Fixpoint trak_ends (traks : list trak_in) (endTime endTimescale : N) : res (list trak_state) :=
+(* findTrakEnds over the tracks (repaired text, /repo 4fe9823): the per-track state lives in a map keyed by track ID; a track
+   ID seen before is an error (as pinned, two tracks with the same ID silently shared one state).  seen = the IDs in the map *)
+Fixpoint trak_ends_from (seen : list N) (traks : list trak_in) (endTime endTimescale : N) : res (list trak_state) :=
   match traks with
   | [] => Ok []
   | t :: r =>
-    do e <- find_trak_end (ti_tb t) (ti_ts t) endTime endTimescale;
-    do r' <- trak_ends r endTime endTimescale;
-    Ok (mkTS (ti_id t) (ti_tb t) (fst (fst e)) (ch_nr (snd e)) 1 [] :: r')
+    if existsb (N.eqb (ti_id t)) seen then Err
+    else
+      do e <- find_trak_end (ti_tb t) (ti_ts t) endTime endTimescale;
+      do r' <- trak_ends_from (ti_id t :: seen) r endTime endTimescale;
+      Ok (mkTS (ti_id t) (ti_tb t) (fst (fst e)) (ch_nr (snd e)) 1 [] :: r')
   end.
+Definition trak_ends (traks : list trak_in) (endTime endTimescale : N) : res (list trak_state) :=
+  trak_ends_from [] traks endTime endTimescale.
 
 Fixpoint crop_all (ts : list trak_state) : res (list tables) :=
   match ts with
